@@ -33,6 +33,7 @@ import ast, contextlib, io, itertools, json, os, re, subprocess, sys, types
 
 from harness.common import lean, pya
 
+WIDEN_FACTOR = 3  # the anchor-/obligation-widened quick run stays well inside the time limit
 PROP = "C11"
 LEAN_PROP = "PyaModel.Props.C11"
 NAMESPACE = "Pya.C11"
